@@ -61,6 +61,18 @@ def make_interp(run, base_it, log, device=None, modular=False):
         last_state = run.notes.get('last_state')
         eff.append(('ctrl', reqtype, request, wvalue, data, len(run.pc), last_state, run.notes.get('loop'), run.notes.get('last_status')))
         if request == 3:
+            if data == 6:
+                # DFU 1.1 section 6.1.2: bStatus, bwPollTimeout[3], bState, iString - six arbitrary bytes; what the device
+                # reported is fixed by the response itself, not by how the code decodes it (unpack, indexing, slices)
+                items = [fresh_int('resp', 0, 255) for _ in range(6)]
+                resp = I.ByteSeq(items)
+                resp.is_status_response = True
+                resp.status_recorded = True
+                run.notes['last_status'] = items[0]
+                run.notes['last_state'] = items[4]
+                run.notes['resp_items'] = items
+                eff.append(('status', items[0], items[4], len(run.pc)))
+                return resp
             resp = W.SymSized('bytes', 6)
             resp.is_status_response = True
             return resp
@@ -96,21 +108,33 @@ def make_interp(run, base_it, log, device=None, modular=False):
             body_fmt = fmt.lstrip('<>=!@')
             if not _re.fullmatch(r'(\d*[Bbsx])+', body_fmt):
                 raise I.Unsupported('struct.unpack format %r' % fmt)
+            given = list(buf.items) if isinstance(buf, I.ByteSeq) else None
+            if given is not None:
+                import struct as _struct
+                if _struct.calcsize(fmt) != len(given):
+                    I.py_raise('struct.error', 'unpack requires a buffer of %d bytes' % _struct.calcsize(fmt))
+
+            def take(k):
+                if given is None:
+                    return [fresh_int('resp', 0, 255) for _ in range(k)]
+                r = given[:k]
+                del given[:k]
+                return r
             for cnt, c in _re.findall(r'(\d*)([Bbsx])', body_fmt):
                 k = int(cnt) if cnt else 1
                 if c == 'B':
-                    out += [fresh_int('resp', 0, 255) for _ in range(k)]
+                    out += take(k)
                 elif c == 's':
-                    out.append(I.ByteSeq([fresh_int('resp', 0, 255) for _ in range(k)]))
+                    out.append(I.ByteSeq(take(k)))
                 elif c == 'x':
-                    [fresh_int('resp', 0, 255) for _ in range(k)]
+                    take(k)
                 else:
                     raise I.Unsupported('struct.unpack code %r' % c)
             flat = []
             for x in out:
                 flat += x.items if isinstance(x, I.ByteSeq) else [x]
             out_flat = flat
-            if getattr(buf, 'is_status_response', False) and len(out_flat) == 6:
+            if getattr(buf, 'is_status_response', False) and len(out_flat) == 6 and not getattr(buf, 'status_recorded', False):
                 # DFU 1.1 section 6.1.2: bStatus, bwPollTimeout[3], bState, iString
                 run.notes['last_status'] = out_flat[0]
                 run.notes['last_state'] = out_flat[4]
@@ -178,7 +202,7 @@ def make_interp(run, base_it, log, device=None, modular=False):
         return I.Sym('int', z3.Int('int_' + str(s.t)))
 
     def b_len(it, v):
-        if isinstance(v, W.SymSized):
+        if isinstance(v, (W.SymSized, I.ByteSeq)):
             return v.length
         if isinstance(v, I.SliceOf):
             n = fresh_int('slice_len', 0)
